@@ -84,8 +84,8 @@ func (self *StreamDecoder) Decode(val interface{}) (err error) {
 			}
 			return self.err
 		} else {
-			s = y + s
 			e = x + s
+			s = y + s
 		}
 
 		// must copy string here for safety
@@ -96,7 +96,8 @@ func (self *StreamDecoder) Decode(val interface{}) (err error) {
 			return
 		}
 
-		self.scanp = e
+		// the fast skipper may have framed more than one value: only consume the decoded one
+		self.scanp = s + self.Decoder.Pos()
 		_, empty := self.scan()
 		if empty {
 			// no remain valid bytes, thus we just recycle buffer
